@@ -40,6 +40,18 @@ PROPS = {
                      "stable and canary Service names differ"],
         explanation="theorems over all rule lists; oracle booleans (exact_split etc.) are the same definitions the theorems are about",
     ),
+    "C20": dict(
+        engines=[dict(name="convert", quick=900, thorough=45000, shard=300, trivial_tags=[])],
+        rule="seeded generator of v1alpha1 Rollouts (every optional block nil or present, 0-4 steps with weight/replicas/pause/header modifier/header matches "
+             "independently present, traffic routings of every provider kind, style and trafficrouting annotations in several spellings, full status), v1alpha1 "
+             "BatchReleases (annotation/spec style combinations, nil workloadRef) and canary-strategy v1beta1 Rollouts restricted to v1alpha1-expressible fields "
+             "(traffic and replicas varied independently, empty strategy); every scalar drawn so that swapped fields differ; the real ConvertTo/ConvertFrom run "
+             "in both orders; distinct = distinct input JSON",
+        trusted=["pass-through field groups (traffic routing refs, header matches, conditions, canary status, release plan, BatchRelease status) are compared through "
+                 "a SHA-1 digest of their JSON on both sides; the model treats them as opaque values copied unchanged"],
+        assumptions=["step weights within 0..100", "metadata other than the two conversion annotations is copied verbatim (not modelled)"],
+        explanation="round-trip and totality theorems over all objects of the modelled shape",
+    ),
     "C12": dict(
         engines=[dict(name="labelpatch", quick=400, thorough=20000, shard=400, trivial_tags=["no-write"])],
         rule="seeded structured generator of (plan, replicas, current batch, rollout-id, update revision, pods with revision labels/"
@@ -82,6 +94,14 @@ MANIFEST_TEXT = {
         note="Rules with an empty match list are outside the domain (CRD defaulting). After Finalise the stable backendRef weight is 1 rather than the user's "
              "original weight (F15, judged under C05, not C13). Sequences are checked on the implementation; the sequence theorem is per step.",
         design_ref="DESIGN.md section 9, C13"),
+    "C20": dict(
+        text="Proof: for every v1alpha1 Rollout/BatchRelease of the modelled shape (optional blocks absent or present, any step list) the v1alpha1 -> v1beta1 -> "
+             "v1alpha1 round trip yields an object with the same meaning, every canary-strategy v1beta1 Rollout restricted to v1alpha1-expressible fields survives "
+             "a read-modify-write through v1alpha1, and no conversion panics. The Gallina conversions are compared with the real ConvertTo/ConvertFrom on generated "
+             "objects in both orders on every run; the same same-meaning relations are evaluated on the implementation's output. Two defects found this way were repaired (F10, F24).",
+        note="Pass-through groups are opaque digests (a dropped field inside one changes the digest and is caught by the correspondence, but the model does not "
+             "name it). A v1beta1 step with traffic and no replicas reads back with replicas = traffic (v1alpha1's meaning of a weight-only step); stated in beta_rmw.",
+        design_ref="DESIGN.md section 9, C20"),
     "C12": dict(
         text="Proof: Properties/C12.v states, for every pod list, plan, replica count, batch and every label string, that batch-label writes of "
              "the PatchPodBatchLabel model go only to live new-revision pods not yet labelled for this release, one label per pod, at most "
